@@ -387,9 +387,9 @@ def dom_src(k):
 
 
 def op_src(op):
-    if not op.defaults:
+    if not op.defaults and isinstance(getattr(ops, op.name, None), ops.Op):
         return f"ops.{op.name}"
-    return f"type(ops.{op.name})(**{dict(op.defaults)!r})"
+    return f"ops.{type(op).__name__}(**{dict(op.defaults)!r})"
 
 
 PY_FD = """
@@ -639,7 +639,7 @@ class Run:
                     continue
                 if defect:
                     self.found += 1
-                    ctx.fail("input", f"C06.declared-{defect}:{op.name}", witness=desc,
+                    ctx.fail("input", f"C06.declared-{defect}:{rule}", witness=desc,
                              expected=f"array of declared domain {impl[1]}",
                              got=f"shape {tuple(res[1].shape)} values min {res[1].min() if res[1].size else None} "
                                  f"max {res[1].max() if res[1].size else None}",
@@ -684,7 +684,7 @@ class Run:
         ctx.count("term:lazy")
         exp_inputs = OrderedDict((v.name, v.output) for v in vs)
         if dom_key(L.output) != impl[1] or dict(L.inputs) != dict(exp_inputs):
-            ctx.fail("input", f"C06.lazy-declaration:{op.name}", witness=desc,
+            ctx.fail("input", f"C06.lazy-declaration:{rule}", witness=desc,
                      expected=f"inputs {dict(exp_inputs)} output {impl[1]}", got=f"inputs {dict(L.inputs)} output {L.output}")
             return
         if list(L.inputs) == list(exp_inputs):
@@ -772,7 +772,7 @@ class Run:
         eager = "Finitary(op, tuple(ts))" if finitary else ("Unary(op, ts[0])" if len(doms) == 1 else "Binary(op, ts[0], ts[1])")
         if what.startswith("subs"):
             eager = "L(**{v.name: t for v, t in zip(vs, ts)})"
-        self.ctx.fail("input", f"C06.term-{what}:{op.name}", witness=dict(desc, tensors=[str(t.inputs) for t in ts]),
+        self.ctx.fail("input", f"C06.term-{what}:{EXPECTED_RULE.get(op.name)}", witness=dict(desc, tensors=[str(t.inputs) for t in ts]),
                       expected=f"lazy output {L.output}; data shape = batch sizes + output shape; Bint values in range",
                       got=f"{type(R).__name__} output {R.output} inputs {dict(R.inputs)} data shape {np.shape(getattr(R, 'data', ()))}",
                       python=PY_TERM.format(what=what, op=op_src(op).replace("Ellipsis", "Ellipsis_"),
